@@ -2422,6 +2422,10 @@ pub struct RxSim {
     /// an explicit script acknowledged something the socket had not sent yet (no consistent peer
     /// does; the socket accepts it): the "FIN acknowledged but never sent" check is off then
     peer_acked_unsent: bool,
+    /// polls made exactly at the reported deadline, in a row, with octets / SYN / FIN outstanding,
+    /// that transmitted nothing
+    silent_deadline_polls: u32,
+    last_tx_n: usize,
     last_poll_t: i64,
     idle_here: u32,
 }
@@ -2585,6 +2589,8 @@ impl RxSim {
             gen_bp: gi("bp", 0) != 0,
             rxq_meta: Default::default(),
             peer_acked_unsent: false,
+            silent_deadline_polls: 0,
+            last_tx_n: 0,
             last_poll_t: -1,
             idle_here: 0,
         }
@@ -2641,6 +2647,10 @@ impl RxSim {
         self.dev.tx_budget = None;
         let rx_n = self.dev.n_rx - n0;
         let mut frames = self.dev.drain_tx();
+        self.last_tx_n = frames.len();
+        if !frames.is_empty() || rx_n > 0 {
+            self.silent_deadline_polls = 0;
+        }
         if livelock {
             let d = format!("case {} t={}us: one Interface::poll transmitted {} frames and was still going (it never returns on a device that always accepts frames); {}", self.id, now, POLL_TX_BUDGET, self.describe());
             self.out.fail("c03-poll-never-returns", d);
@@ -3014,11 +3024,26 @@ impl RxSim {
             }
             "pollat" => {
                 // advance to the deadline the interface reported (bounded), then poll
+                let mut at_deadline = false;
+                let owing = has_unacked(self.sock_ref());
                 if let Some(d) = self.deadline {
-                    let cap: i64 = t.get(1).map(|v| v.parse().unwrap()).unwrap_or(120_000_000);
+                    let cap: i64 = t.iter().skip(1).find_map(|v| v.parse().ok()).unwrap_or(120_000_000);
                     self.now = d.clamp(self.now, self.now + cap);
+                    at_deadline = self.now >= d;
                 }
+                let limited = self.next_budget.is_some() || self.device_busy;
                 self.poll();
+                // a timer that fires while something is unacknowledged must eventually put a frame on
+                // the wire (retransmission, probe); a finite deadline alone is not progress
+                if at_deadline && owing && !limited && self.last_tx_n == 0 {
+                    self.silent_deadline_polls += 1;
+                    if self.silent_deadline_polls >= 4 {
+                        let d = format!("case {} t={}us: {} polls in a row at the instant poll_at asked for, data/SYN/FIN unacknowledged, and none transmitted anything; {}", self.id, self.now, self.silent_deadline_polls, self.describe());
+                        self.out.fail("c02-stall", d);
+                    }
+                } else {
+                    self.silent_deadline_polls = 0;
+                }
             }
             x => panic!("bad rx op {}", x),
         }
@@ -3159,6 +3184,14 @@ pub fn run_rx_case(c: &Case, tracing: bool) -> RunOut {
             if sim.out.fails.iter().any(|(c, _)| c.starts_with("c04-")) {
                 break;
             }
+        }
+        // liveness tail: the peer stays silent; while something is unacknowledged the socket's timers
+        // must keep producing retransmissions / probes
+        for _ in 0..6 {
+            if !has_unacked(sim.sock_ref()) || sim.deadline.is_none() {
+                break;
+            }
+            sim.step("pollat");
         }
     }
     sim.finish()
